@@ -21,6 +21,7 @@ import Proofs.Exact
 import Proofs.Corr
 import Proofs.PeaksMax
 import Proofs.CopySeed
+import Proofs.CopySeedRev
 namespace Coma.Props
 open Coma Coma.Spec
 
@@ -122,6 +123,18 @@ theorem C06_secondary_seed_near_truth (c : SecCfg) (ref q : OMap) (peak : Int) (
         toBp (p : Int) 100 (peak - c.margin) - ref.positions.getD i 0 ≤ 200 ∧
         ref.positions.getD i 0 - toBp (p : Int) 100 (peak - c.margin) ≤ 200 :=
   Coma.Proofs.secondary_seed_near_copy c ref q peak i n H
+
+/-- … AND ON THE OTHER STRAND: the molecule given to COMA is the mirror image of the exact copy `q0` (trimmed) and is
+    refined on the '-' strand (its bit vector is reversed before the correlation; off the lattice every label's bin may
+    move by one against the forward vector).  A peak passing `find_peaks` lies at the true lag or next to it on either
+    side, i.e. its bin centre is between 150 bp before and 149 bp after the true placement. -/
+theorem C06_secondary_seed_near_truth_reverse (c : SecCfg) (ref q0 : OMap) (peak : Int) (i n : Nat)
+    (H : Coma.Proofs.CopyInWindow c ref q0 peak i n) (hlen : q0.length = lastD 0 q0.positions + 1) :
+    ∃ corr, refineCorrelation c ref q0.mirror true peak = .ok corr ∧
+      ∃ p h, (p, h) ∈ findPeaksSecondary c.thr (corr.map Int.ofNat) ∧
+        toBp (p : Int) 100 (peak - c.margin) - ref.positions.getD i 0 ≤ 200 ∧
+        ref.positions.getD i 0 - toBp (p : Int) 100 (peak - c.margin) ≤ 200 :=
+  Coma.Proofs.secondary_seed_near_copy_rev c ref q0 peak i n H hlen
 
 /-- non-vacuity of `CopyInWindow`: 15 reference labels 2 100 bp apart, the query copies labels 1..13, default
     secondary parameters, primary peak 700 bp off -/
